@@ -336,6 +336,12 @@ func (p *pp) unknownType(v reflect.Value) {
 }
 
 func (p *pp) badVerb(verb rune) {
+	if verb == 'w' {
+		// CUSTOM: any misuse of %w invalidates what HelperForErrorf captured,
+		// also when it is detected before method dispatch.
+		p.wrappedErr = nil
+		p.wrapErrs = false
+	}
 	p.erroring = true
 	p.buf.writeString(percentBangString)
 	p.buf.writeRune(verb)
@@ -1083,12 +1089,24 @@ func (p *pp) argNumber(
 }
 
 func (p *pp) badArgNum(verb rune) {
+	if verb == 'w' {
+		// CUSTOM: any misuse of %w invalidates what HelperForErrorf captured,
+		// also when it is detected before method dispatch.
+		p.wrappedErr = nil
+		p.wrapErrs = false
+	}
 	p.buf.writeString(percentBangString)
 	p.buf.writeRune(verb)
 	p.buf.writeString(badIndexString)
 }
 
 func (p *pp) missingArg(verb rune) {
+	if verb == 'w' {
+		// CUSTOM: any misuse of %w invalidates what HelperForErrorf captured,
+		// also when it is detected before method dispatch.
+		p.wrappedErr = nil
+		p.wrapErrs = false
+	}
 	p.buf.writeString(percentBangString)
 	p.buf.writeRune(verb)
 	p.buf.writeString(missingString)
